@@ -202,7 +202,11 @@ where
     });
 
     // Channel to collect results from all attempts
-    let (tx, mut rx) = mpsc::channel::<(usize, Result<S::Response, S::Error>)>(max_attempts);
+    // (the capacity is only an optimisation: senders wait for room; tokio panics above
+    // its semaphore's limit, which an absurdly large max_hedged_attempts would exceed)
+    let (tx, mut rx) = mpsc::channel::<(usize, Result<S::Response, S::Error>)>(
+        max_attempts.min(tokio::sync::Semaphore::MAX_PERMITS),
+    );
 
     // Spawn primary request on the instance that was driven to readiness;
     // hedges run on clones, which have to become ready themselves
